@@ -51,6 +51,14 @@ Inductive expr : Set :=
 | EDot (l : expr)                          (* l.key *)
 | EAssert (e : expr) (t : sty).            (* e.(T) *)
 
+(* one step of an assignment target chain  v[i]  v.k  — and the forms that
+   are never targets: a slice, a type assertion *)
+Inductive tstep : Set :=
+| TIdx (i : expr)                  (* …[i] *)
+| TDot                             (* ….k *)
+| TSlice (s : option expr)         (* …[s:]   (not a target) *)
+| TAssert (t : sty).               (* ….(T)   (not a target) *)
+
 (* statement contexts in which a value meets an expected type *)
 Inductive ctx : Set :=
 | CDecl                    (* x := e                       parseInferredDeclStatement *)
@@ -61,5 +69,7 @@ Inductive ctx : Set :=
 | CGenericArr              (* parameter of type GENERIC_ARRAY (builtin) *)
 | CGenericMap              (* parameter of type GENERIC_MAP   (builtin has/del) *)
 | CCond                    (* if e / while e               parseCondition *)
-| CRange.                  (* for x := range e             parseForStatement *)
+| CRange                   (* for x := range e             parseForStatement *)
+| CAssignTo (root : sty) (steps : list tstep)   (* v:T ; v<steps> = e   parseAssignmentTarget + parseAssignmentStatement *)
+| CAssignCall (t : sty).   (* func f:T ; f = e              (a function is not a target) *)
 
